@@ -43,7 +43,7 @@ CLAIMED = {
         "DESIGN.md §4 C07",
     ),
     "C08": (
-        "Model-based stateful property testing of the real whale_lair wired to the real fee distributor and collector (so its claim-first / epoch-is-current preconditions are the real ones): generated histories of bond (with exact, mismatching, wrong-denom, extra and missing funds; whitelisted, non-whitelisted and cw20 assets), unbond, two unbonds in one block, withdraw, time advances on and around the unbonding period (0, 1 ns, period-1, period, period+1, ...), epoch creation and claims by four users; reference model = bonded[user][denom] + multiset of unbonding records. After every step the contract balance per denom equals bonded + pending, TotalBonded equals the sum of users, Bonded/Unbonding/Withdrawable queries equal the model, a withdrawal pays exactly the matured records to the caller only, invalid bonds are rejected, rejected steps leave the world unchanged.",
+        "Model-based stateful property testing of the real whale_lair wired to the real fee distributor and collector (so its claim-first / epoch-is-current preconditions are the real ones): generated histories of bond (with exact, mismatching, wrong-denom, extra and missing funds; whitelisted, non-whitelisted and cw20 assets), unbond, two unbonds in one block, withdraw, time advances on and around the unbonding period (0, 1 ns, period-1, period, period+1, ...), epoch creation and claims by four users; reference model = bonded[user][denom] + multiset of unbonding records. After every step the contract balance per denom equals bonded + pending, TotalBonded equals the sum of users, Bonded/Unbonding/Withdrawable queries equal the model, a withdrawal pays exactly the matured records to the caller only, invalid bonds are rejected, rejected steps leave the world unchanged. One history in fifteen is a directed shape: one address piles up 31-37 unbonding records of one denom in different blocks (more than one page of the contract's listings), lets them mature and withdraws repeatedly.",
         "Block time is owned by the harness. Withdraw's page limit of 30 records is modelled. cw-multi-test as the chain.",
         "stateful / model-based property testing with time-schedule generation",
         "DESIGN.md §4 C08",
@@ -55,13 +55,13 @@ CLAIMED = {
         "DESIGN.md §4 C09",
     ),
     "C20": (
-        "Schedule generation against a reference clock: the epoch manager (0..3 logging hook receivers, hooks added/removed mid-history) and the fee distributor are driven by generated block-time schedules (before genesis, exactly at, 1 ns before/after each boundary of either clock, several durations late with jitter) interleaved with creation attempts by arbitrary callers, repeated within a block; durations 1..3 days. Every attempt's acceptance must equal the reference clock's decision; after every step CurrentEpoch of both contracts equals the model, each registered hook logged exactly one call carrying the new epoch per accepted creation, and a rejected attempt leaves the world snapshot unchanged.",
+        "Schedule generation against a reference clock: the epoch manager (0..3 logging hook receivers, hooks added/removed mid-history) and the fee distributor are driven by generated block-time schedules (before genesis, exactly at, 1 ns before/after each boundary of either clock, several durations late with jitter) interleaved with creation attempts by arbitrary callers, repeated within a block; durations 1..3 days. Every attempt's acceptance must equal the reference clock's decision; after every step CurrentEpoch of both contracts equals the model, each registered hook logged exactly one call carrying the new epoch per accepted creation, and a rejected attempt leaves the world snapshot unchanged. The distributor's owner rewrites the epoch configuration (duration, genesis) mid-history; the reference clock follows the configuration read back from the contract.",
         "Block time owned by the harness. Hook receivers are harness contracts. The distributor runs with its real collector (empty factories).",
         "schedule generation (property-based) against a reference clock model",
         "DESIGN.md §4 C20",
     ),
     "C10": (
-        "Stateful property testing with injected faults on the full hub (3 pairs incl. a cw20 leg, 3 vaults, pool router with generated 1- and 2-hop routes, collector, distributor, lair): generated histories create fee states (zero, <= 1000, above) through real swaps and router flash loans, change the take rate over {inactive, 0, 1e-18, 0.1, ~1, random} with/without a DAO address, add/remove routes, disable swaps on a pair (simulation passes, execution fails), de-register or drain pairs, donate to the collector, call ForwardFees from non-distributors, and create epochs. Each NewEpoch is judged against a conservation oracle: failure => whole world snapshot unchanged; success => pending fees of registered pairs/vaults collected (sub-threshold entries kept), every non-distribution asset in the collector either untouched or fully swapped, router empty, DAO delta == floor(rate * forwarded balance) iff active and recorded in TakeRateHistory, distributor inflow == new epoch total - rolled-over remainder, collector's distribution-asset balance 0. A successful NewEpoch must not leave behind an asset that is above the aggregation threshold, listed by a registered pool or vault, routed and simulable (the swap step must then have been attempted, and a failed step undoes everything). NewEpoch is sent as a top-level message or from inside a router flash loan on one of the vaults (the vault may then owe exactly the enclosing loan's own protocol fee).",
+        "Stateful property testing with injected faults on the full hub (3 pairs incl. a cw20 leg, 3 vaults, pool router with generated 1- and 2-hop routes, collector, distributor, lair): generated histories create fee states (zero, <= 1000, above) through real swaps and router flash loans, change the take rate over {inactive, 0, 1e-18, 0.1, ~1, random} with/without a DAO address, add/remove routes, disable swaps on a pair (simulation passes, execution fails), de-register or drain pairs, donate to the collector, call ForwardFees from non-distributors, and create epochs. Each NewEpoch is judged against a conservation oracle: failure => whole world snapshot unchanged; success => pending fees of registered pairs/vaults collected (sub-threshold entries kept), every non-distribution asset in the collector either untouched or fully swapped, router empty, DAO delta == floor(rate * forwarded balance) iff active and recorded in TakeRateHistory, distributor inflow == new epoch total - rolled-over remainder, collector's distribution-asset balance 0. A successful NewEpoch must not leave behind an asset that is above the aggregation threshold, listed by a registered pool or vault, routed and simulable (the swap step must then have been attempted, and a failed step undoes everything). NewEpoch is sent as a top-level message or from inside a router flash loan on one of the vaults (the vault may then owe exactly the enclosing loan's own protocol fee). One hub in eight carries eleven more registered pairs and eleven more registered vaults whose asset names sort first, so that the hub has more children than one default page of the factories' listings.",
         "Protocol fees charged by the aggregation's own swaps are read from swap events (claims validated by C07). Trios are not collected by ForwardFees and are not asserted. cw-multi-test as the chain.",
         "stateful property testing with fault injection and a conservation oracle",
         "DESIGN.md §4 C10",
@@ -91,13 +91,13 @@ CLAIMED = {
         "DESIGN.md §4 C14",
     ),
     "C15": (
-        "Four searches: (a) assert_max_spread (package) and (b) both deposit slippage assertions (pair constant-product + stableswap, trio; through the hook) with generated inputs placed on, one and two units around, and far from every threshold, for max_spread / tolerance in {None, 0, 1% -/+ 1e-18, 50% -/+ 1e-18, 1, >1, random}, judged by an exact-rational three-way oracle (forced accept / forced reject / either inside the 18-decimal granularity band); (c) live constant-product and stableswap pairs: every limited swap that succeeds must satisfy the realised bound computed from its actual amounts, and a limited swap that is rejected is re-executed without the limit in the same state - if that lands strictly inside the bound it is a violation; (d) router routes (1..3 hops, receivers with pre-existing balances) with minimum_receive = simulated amount + {-3..3, far}: success => receiver delta >= minimum, delivery >= minimum => not rejected (checked by re-executing without the minimum). (e) live deposits into constant-product pairs with the first asset's amount placed on / around the exact threshold of the ratio test and the assets listed in the pool's or the opposite order, judged by the same three-way reference from the reported reserves. (f) the same live spread rule on the three-asset pool in all six directions. (g) live deposits with a tolerance into stableswap pairs and the three-asset pool, judged from the LP actually minted; (h) the spread figure reported by the constant-product computation against the independently computed price impact.",
+        "Four searches: (a) assert_max_spread (package) and (b) both deposit slippage assertions (pair constant-product + stableswap, trio; through the hook) with generated inputs placed on, one and two units around, and far from every threshold, for max_spread / tolerance in {None, 0, 1% -/+ 1e-18, 50% -/+ 1e-18, 1, >1, random}, judged by an exact-rational three-way oracle (forced accept / forced reject / either inside the 18-decimal granularity band); (c) live constant-product and stableswap pairs: every limited swap that succeeds must satisfy the realised bound computed from its actual amounts, and a limited swap that is rejected is re-executed without the limit in the same state - if that lands strictly inside the bound it is a violation; (d) router routes (1..3 hops, receivers with pre-existing balances) with minimum_receive = simulated amount + {-3..3, far}: success => receiver delta >= minimum, delivery >= minimum => not rejected (checked by re-executing without the minimum). (e) live deposits into constant-product pairs with the first asset's amount placed on / around the exact threshold of the ratio test and the assets listed in the pool's or the opposite order, judged by the same three-way reference from the reported reserves. (f) the same live spread rule on the three-asset pool in all six directions. (g) live deposits with a tolerance into stableswap pairs and the three-asset pool, judged from the LP actually minted; (h) the spread figure reported by the constant-product computation against the independently computed price impact. In the live stableswap / 3-pool deposit check half of the deposits are preceded by a swap, so that protocol fees are pending when the tolerance is judged.",
         "Band = Decimal floors at 18 places; belief-price rule judged only where offer/p and 1/p fit the contract's types. Package-level mutations are visible because the harness patches white-whale-std to /repo/packages.",
         "property-based testing with a three-way exact-rational oracle on dense boundary inputs + differential live checks",
         "DESIGN.md §4 C15",
     ),
     "C16": (
-        "Exhaustive matrix enumeration with random payloads: a hand-written table classifies every ExecuteMsg variant of 14 contracts (verified at start-up against the variant names derived from the message schemas, so a new variant cannot be silently missing); every privileged or internal variant x seventeen caller roles (configured owner, hub owner account, prospective new owner, user, sibling contract, the contract itself, pool factory, vault factory, fee distributor, a registered vault, the fee collector's configured take-rate recipient, the creator of an incentive flow, the bonding contract, the pool router, the vault router, the incentive factory, an incentive contract) x {before, after an ownership transfer} is executed against a freshly built full hub as the regression corpus (760 combinations), and random payload details are drawn on top. Unauthorised caller => rejected and full world snapshot (all storage + all balances) unchanged; authorised caller with the canonical payload => accepted; after a transfer the previous owner loses and the new owner gains the rights. A second search runs flash loans whose borrower contract forges the vault's internal Callback(AfterTrade) from inside its own (possibly nested) loan with generated arguments; the borrower's reply handler reports the vault's verdict, which must be 'rejected'. Payloads are caller-aware (NextLoan source_vault in {vault, caller, other} x asset in {registered, unregistered}). Unauthorised attempts also carry reshaped payloads (optional fields left out down to the empty update, owner naming the caller).",
+        "Exhaustive matrix enumeration with random payloads: a hand-written table classifies every ExecuteMsg variant of 14 contracts (verified at start-up against the variant names derived from the message schemas, so a new variant cannot be silently missing); every privileged or internal variant x seventeen caller roles (configured owner, hub owner account, prospective new owner, user, sibling contract, the contract itself, pool factory, vault factory, fee distributor, a registered vault, the fee collector's configured take-rate recipient, the creator of an incentive flow, the bonding contract, the pool router, the vault router, the incentive factory, an incentive contract) x {before, after an ownership transfer to a new owner's account, after a transfer to the contract's own address} is executed against a freshly built full hub as the regression corpus (760 combinations), and random payload details are drawn on top. Unauthorised caller => rejected and full world snapshot (all storage + all balances) unchanged; authorised caller with the canonical payload => accepted; after a transfer the previous owner loses and the new owner gains the rights. A second search runs flash loans whose borrower contract forges the vault's internal Callback(AfterTrade) from inside its own (possibly nested) loan with generated arguments; the borrower's reply handler reports the vault's verdict, which must be 'rejected'. Payloads are caller-aware (NextLoan source_vault in {vault, caller, other} x asset in {registered, unregistered}). Unauthorised attempts also carry reshaped payloads (optional fields left out down to the empty update, owner naming the caller).",
         "cw20 token and the test-only distributor mock are outside the table. Router route management is judged with a wasm admin configured. AssertMinimumReceive is judged for effect-freeness. Migrations: only rejection of unauthorised callers.",
         "fault/role enumeration (exhaustive matrix) + property-based payloads, snapshot-diff oracle",
         "DESIGN.md §4 C16",
